@@ -1,16 +1,18 @@
 """C36 - IR graph simplification preserves observable behaviour.
 
 Engine E2 over the irgen lattice of complete functions: every CFG shape with <= N blocks in which some exit
-block exists; every exit block ends with the "ABI output" AssignBlock {r = r, sp = sp} (the dummy dependency
-the shipped IDA example adds to each leaf) followed by IRDst = END; bodies over an alphabet with registers,
-stack memory reads/writes, a store through a register pointer, parallel swap, an uninterpreted call and stack
-pointer arithmetic.  The thorough tier adds a fixed list of x86_32 functions assembled with miasm's own
-assembler and lifted with the real x86 lifter (mc/x86funcs.py).
+block exists; every exit block ends with  r = r + a ; sp = sp + 4 ; IRDst = END  (add r, a ; ret): the leaf
+writes both ABI output registers, as the IRAOutRegs pattern of test/analysis/unssa.py needs; bodies over an
+alphabet with registers, stack memory reads/writes, a store through a register pointer, parallel swap, an
+uninterpreted call (call_func_ret) and stack pointer arithmetic.  The thorough tier adds a fixed list of x86_32
+functions assembled with miasm's own assembler and lifted with the real x86 lifter (mc/x86funcs.py).
 
 Pipelines (each on a fresh copy of the graph):
   common       IRCFGSimplifierCommon(lifter)(ircfg, head)
-  ssa          IRCFGSimplifierSSA(lifter)(ircfg, head), the lifter reporting the SSA versions of the output
-               registers written in the leaf (the IRAOutRegs pattern of test/analysis/unssa.py)
+  ssa          IRCFGSimplifierSSA(lifter)(ircfg, head) with the stock lifter, whose get_out_regs names the
+               registers (r, sp): the way example/disasm/full.py and example/ida/graph_ir.py drive it
+  ssa-outregs  IRCFGSimplifierSSA(lifter)(ircfg, head) with a lifter subclass whose get_out_regs reports the SSA
+               versions of the output registers written in the leaf: the IRAOutRegs pattern of test/analysis/unssa.py
 
 Oracle = the property: mc/irinterp on the original and on the simplified graph, from every state of a small
 lattice, must give the same sequence of (address, size, value) memory writes, the same sequence of call events,
@@ -27,11 +29,11 @@ PROP = "C36"
 LEVEL = "exploration"
 ENGINE = "enum"
 RULE = ("complete product: CFG shapes (<= N blocks, every block reachable, at least one exit block) x bodies (<= L "
-        "assignments per block from an ordered alphabet) x branch conditions, each graph through both pipelines and run "
+        "assignments per block from an ordered alphabet) x branch conditions, each graph through the listed pipelines and run "
         "from every state of the register x memory lattice (only registers/memory the original graph reads are varied); "
         "plus (thorough) a fixed list of assembled x86_32 functions x argument lattice; distinct = distinct graph; "
         "non-trivial = the pipeline changed the graph and the original reaches an exit within the fuel bound from some state")
-LEVEL_TEXT = ("Bounded-exhaustive enumeration of small complete functions through the two real simplification pipelines; "
+LEVEL_TEXT = ("Bounded-exhaustive enumeration of small complete functions through the real simplification pipelines; "
               "behaviour decided by an independent reference interpreter over a complete small state lattice that contains "
               "aliasing states (the register pointer equals / overlaps the stack cell, the stack cell wraps around the address "
               "space). The passes are shape-generic (dead code, block merging, jump threading, expression propagation, phi "
@@ -39,7 +41,7 @@ LEVEL_TEXT = ("Bounded-exhaustive enumeration of small complete functions throug
 LEVEL_NOTE = ("Trusted: mc/irinterp.py + mc/refsem.py, mc/irgen.py. Runs exceeding the fuel bound in the original graph are "
               "skipped and counted. Only the calling convention's output registers are compared at the exit.")
 TECHNIQUE = "bounded-exhaustive enumeration of IR graphs through the simplifier; reference-interpreter differential"
-ASSUMPTIONS = ["every exit block writes the ABI output registers (r = r, sp = sp) before IRDst = END: the graph is a complete function",
+ASSUMPTIONS = ["every exit block writes the ABI output registers (r = r + a ; sp = sp + 4) before IRDst = END: the graph is a complete function",
                "call_func_ret is an uninterpreted event whose result is a fixed function of its evaluated arguments",
                "values of registers read before any write are the inputs of both graphs"]
 
